@@ -299,7 +299,7 @@ Proof.
     + destruct obs as [|it obs']; [discriminate H|]. apply andb_prop in H. destruct H as [Hi Hc].
       destruct it; try discriminate Hi. simpl. apply IH; exact Hc.
     + destruct obs as [|it obs']; [discriminate H|]. apply andb_prop in H. destruct H as [Hi Hc].
-      destruct it as [? | rep | ? | ? ? | ? ? ? | ? ? | ? ?]; try discriminate Hi. simpl. destruct rep as [rp|].
+      destruct it as [? | rep | ? | ? ? | ? ? ? | ? ? | ? ? | ? ? ? | ?]; try discriminate Hi. simpl. destruct rep as [rp|].
       * apply existsb_weaken in Hi. rewrite Hi. f_equal. apply IH; exact Hc.
       * apply negb_true_iff in Hi. rewrite Hi. f_equal. apply IH; exact Hc.
 Qed.
